@@ -89,6 +89,8 @@ def case_parallel(ctx, spec, rng, lines, checks):
     from skactiveml.pool import ParallelUtilityEstimationWrapper
     from joblib import cpu_count
 
+    rng_state = rng.getstate()
+
     nrs = np.random.RandomState(rng.randrange(2**31 - 1))
     n = rng.randint(5, 14)
     data = make_data(nrs, n, spec.kind, rng.choice(["random", "grid", "duplicates"]), n_labeled=rng.randint(2, n - 2),
@@ -99,7 +101,8 @@ def case_parallel(ctx, spec, rng, lines, checks):
         return
     n_jobs = rng.choice([1, 2, 3, 5, -1, 40])
     seed = rng.randrange(10**6)
-    case = dict(wrapper="parallel", spec=spec.name, mode=mode, n_jobs=n_jobs, seed=seed, X=data["X"], y=data["y"], candidates=cand)
+    case = dict(wrapper="parallel", spec=spec.name, mode=mode, n_jobs=n_jobs, seed=seed, X=data["X"], y=data["y"], candidates=cand,
+                rng_state=[rng_state[0], list(rng_state[1]), rng_state[2]])
     log = []
     inner = make_proxy(spec.make(seed), log)
     # the recording proxy only sees chunk calls made in-process; threads share the inner strategy object,
@@ -145,11 +148,13 @@ def case_parallel(ctx, spec, rng, lines, checks):
 
 
 def case_summary(case):
-    return {k: v for k, v in case.items() if k not in ("X", "y", "candidates")}
+    return {k: v for k, v in case.items() if k not in ("X", "y", "candidates", "rng_state")}
 
 
 def case_subsample(ctx, spec, rng, lines, checks):
     from skactiveml.pool import SubSamplingWrapper
+
+    rng_state = rng.getstate()
 
     nrs = np.random.RandomState(rng.randrange(2**31 - 1))
     n = rng.randint(6, 16)
@@ -172,7 +177,7 @@ def case_subsample(ctx, spec, rng, lines, checks):
     b = rng.choice([1, 2, 3, len(cs), len(cs) + 1])
     seed = rng.randrange(10**6)
     case = dict(wrapper="subsampling", spec=spec.name, mode=mode, max_candidates=mc, exclude_non_subsample=excl, b=int(b), seed=seed,
-                X=data["X"], y=data["y"], candidates=cand)
+                X=data["X"], y=data["y"], candidates=cand, rng_state=[rng_state[0], list(rng_state[1]), rng_state[2]])
     log = []
     inner = make_proxy(spec.make(seed), log)
     w = SubSamplingWrapper(query_strategy=inner, max_candidates=mc, exclude_non_subsample=excl, random_state=seed)
@@ -291,9 +296,15 @@ def search(ctx):
 
 
 def replay(payload):
+    """Re-generates exactly the recorded case from the recorded PRNG state and re-runs it on the real code."""
     r = payload["replay"]
-    print("replay of C20 cases re-runs the exploration with the recorded seed; recorded case:")
-    print({k: v for k, v in r.items() if k not in ("X", "y")})
+    print("recorded case:", {k: v for k, v in r.items() if k not in ("X", "y", "candidates", "rng_state")})
     ctx = vlib.Ctx("C20", "quick", 0)
-    explore(ctx, 2, 8)
+    st = r["rng_state"]
+    ctx.rng.setstate((st[0], tuple(st[1]), st[2]))
+    spec = [s_ for s_ in pool_specs() if s_.name == r["spec"]][0]
+    lines, checks = [], []
+    (case_parallel if r["wrapper"] == "parallel" else case_subsample)(ctx, spec, ctx.rng, lines, checks)
+    for v in ctx.violations:
+        print("REPRODUCED:", v["key"], "-", v["what"][:200])
     return 1 if ctx.violations else 0
